@@ -253,9 +253,11 @@ impl<'a, 'b> Generator<'a, 'b> {
                     write!(self.out, "break");
                 }
                 IR::Return(t) => {
-                    write!(self.out, "return ");
+                    // Lua only allows `return` as the last statement of a block,
+                    // Sylt allows statements after a `ret`.
+                    write!(self.out, "do return ");
                     let t = self.expand(t).to_string();
-                    write!(self.out, "{}", t);
+                    write!(self.out, "{} end", t);
                 }
                 IR::HaltAndCatchFire(msg) => {
                     write!(self.out, "__CRASH(\"{}\")()", msg);
